@@ -1,4 +1,9 @@
+#[cfg(not(feature = "verif_hooks"))]
 use std::{collections::HashMap, sync::Arc};
+#[cfg(feature = "verif_hooks")]
+use std::sync::Arc;
+#[cfg(feature = "verif_hooks")]
+use crate::verif_seam::{HashMap, SeamCtor};
 
 use enum_map::{enum_map, EnumMap};
 use thiserror::Error;
